@@ -226,13 +226,18 @@ def _run(V, work, tier):
     progs_ += [("scope", f, None) for f in macrolet_scope_programs()]
     progs_ += [("reentrant", f, None) for f in reentrant_macro_programs()]
     ts = templates(2)
-    if not thorough:
+    # (every template in both tiers: the whole family costs ten seconds)
+    if False:
         multi = [t for t in ts if "('q', ('q'," in repr(t)]       # templates with two or more quote marks: always all of them
         rest = [t for t in ts if "('q', ('q'," not in repr(t)]
         ts = rest[:60] + rnd.sample(rest[60:], 640) + multi[:120]
     for t in ts:
         progs_.append(("qq", [[S("let"), [[S("x"), 7], [S("xs"), Q([8, 9])], [S("e"), []]],
                                [S("probe"), [S("handler-bind"), [[S("condition"), [S("lambda"), [S("c"), S("&rest"), S("r")], Q(S("qq-error"))]]], QQ(t)]]]], t))
+    # the MIX family (gen/mix.py): macros with templates, local macros, eval of macroexpand, next to everything else
+    import mix
+    for _ in range(400 if thorough else 60):
+        progs_.append(("mix", mix.mix_program(rnd, depth=rnd.choice([3, 4])), None))
     # gensym
     progs_.append(("gensym", [[S("probe"), [S("gensym")], [S("gensym")]], [S("probe"), [S("equal?"), [S("gensym")], [S("gensym")]]]], None))
     progs_.append(("gensym", list(MACROS) + [[S("set"), Q(S("gen00000001")), 99], [S("probe"), Q(S("tmp")), [S("m-shadow"), S("gen00000001")]]], None))
